@@ -161,6 +161,7 @@ def run(ctx):
             by_sig["c05:model-mismatch"] = by_sig.get("c05:model-mismatch", 0) + len(mism)
         ctx.add_samples([{"mode": c["mode"], "source": c["source"][:400], "observed": c["observed"], "spec": c["spec"]}
                          for c in cases[:2] + cases[5:6] + cases[8:9]])
+    sessions_tie(ctx)
     ctx.cov["evaluations"] = total
     ctx.cov["runs (profile, optimisation level, cases, seed)"] = [list(r) for r in runs]
     ctx.cov["distinct_nontrivial"] = len(distinct)
@@ -183,6 +184,68 @@ def run(ctx):
                        "top-level and body sites; opt level 1 (REPL default) and 0 (every 7th case); every history is checked "
                        "against the reference interpreter of the property (direct oracle) and, exactly, against the Coq model; "
                        "distinct = distinct sources with at least one top-level call")
+
+
+IMPORTS_S = "From Aelys Require Import Extracted.CallCacheConsts Extracted.ReplShape Model.Session.\nOpen Scope Z_scope."
+
+
+def sessions_tie(ctx):
+    """The machine under Props/C05Session.v (layouts, arities, frames, calls through values) against the implementation:
+    generated REPL sessions (hx_repl, shared with C14) with global calls, calls of function-valued variables and arguments
+    (functions and CLOSURES of earlier inputs, from functions without globals of their own), rebindings in the same input,
+    host calls.  A step that differs from the session's reference semantics is a call that ran the wrong function (or
+    read the wrong global); sessions are also evaluated on Model/Session.v inside Coq."""
+    ok, out = vlib.coq_make(["Model/Session.vo"])
+    n = 200 if ctx.tier == "quick" else 4000
+    runs = [("dev", 1, n, ctx.seed + 7)] if ctx.tier == "quick" else [("dev", 1, n, ctx.seed + 7), ("release", 1, n, ctx.seed + 7), ("dev", 0, n // 2, ctx.seed + 77)]
+    total, through_values, closures = 0, 0, 0
+    for prof, opt_level, n_cases, run_seed in runs:
+        okb, paths, log = vlib.harness_build(["hx_repl"], profile=prof)
+        if not okb:
+            ctx.broken.append("harness build failed (hx_repl, %s)" % prof)
+            ctx.log(log[-3000:])
+            return
+        rc, outp = vlib.sh([paths["hx_repl"], "--seed", str(run_seed), "--n", str(n_cases), "--opt", str(opt_level)], timeout=2400)
+        cases, sess = [], {}
+        for line in outp.splitlines():
+            f = line.split("\t")
+            if len(f) >= 7 and f[0] == "SESS":
+                sess[f[1]] = {"ok": f[2] == "1", "code": f[3], "steps": f[4], "expect": f[5]}
+            if len(f) >= 9 and f[0] == "CASE":
+                cases.append({"seed": f[1], "real": f[4].split(" ;; "), "oracle": f[5].split(" ;; "), "source": f[6], "problems": f[7]})
+        if rc != 0 or len(cases) != n_cases:
+            ctx.violation("c05:harness-crash", "hx_repl died after %d sessions" % len(cases),
+                          {"profile": prof, "cmd": f"hx_repl --seed {run_seed} --n {n_cases} --opt {opt_level}", "output_tail": outp[-1500:]})
+            if not cases:
+                return
+        total += len(cases)
+        for c in cases:
+            through_values += len(re.findall(r"println\(a\d+\(", c["source"]))
+            closures += c["source"].count("fn mkk")
+        def first_div(c):
+            return next((j for j in range(len(c["real"])) if j >= len(c["oracle"]) or c["real"][j] != c["oracle"][j]), None)
+        div = [c for c in cases if first_div(c) is not None]
+        scases = [(c, sess[c["seed"]]) for c in cases if first_div(c) is None and c["seed"] in sess and sess[c["seed"]]["ok"]]
+        sfails = []
+        if ok:
+            sfails, serr = vlib.coq_eval_cases("c05s", IMPORTS_S, "session_tie", "sobs_eqb",
+                                               [(f"({x['code']}, {x['steps']})", x["expect"]) for _, x in scases], shard=20)
+            if serr:
+                ctx.broken.append("correspondence C05: evaluation of Model/Session.v failed")
+                ctx.log(serr[-2000:])
+        for c in div[:4]:
+            k = first_div(c)
+            ctx.violation("c05:wrong-callee:session", f"step {k} of the session ran / read something else than what its names denote at that moment "
+                          f"(real {c['real'][k] if k < len(c['real']) else None!r}, the property requires {c['oracle'][k] if k < len(c['oracle']) else None!r})",
+                          {"case_seed": c["seed"], "profile": prof, "opt": opt_level, "source": c["source"], "real_steps": c["real"],
+                           "oracle_steps": c["oracle"], "first_step_differing_from_oracle": k})
+        for i in sfails[:2]:
+            c, x = scases[i]
+            ctx.violation("c05:model-mismatch:session", "the session follows the property but Model/Session.v predicts other observations",
+                          {"case_seed": c["seed"], "profile": prof, "source": c["source"], "code": x["code"], "steps": x["steps"], "real_observations": x["expect"]})
+    ctx.cov["sessions (hx_repl)"] = {"sessions": total, "calls_through_a_function_valued_argument": through_values, "closure_definitions": closures}
+    if total and (through_values < 3 or closures < 3):
+        ctx.broken.append("tie C05: the session generator no longer reaches calls through values / closures")
 
 
 def corpus_cases(ctx):
